@@ -181,6 +181,8 @@ class Layout:
         os.mkdir(ghosts)
         self.own(ghosts)
         shutil.rmtree(self.root, ignore_errors=True)
+        if os.path.lexists(self.root):  # an emptied root that a session re-created as a file
+            os.remove(self.root)
         os.mkdir(self.root)
         for d in ROOT_DIRS:
             os.mkdir(os.path.join(self.root, d))
@@ -193,7 +195,9 @@ class Layout:
         snap = {}
         for dirpath, dirnames, filenames in os.walk(self.top):
             dirnames[:] = sorted(d for d in dirnames if os.path.join(dirpath, d) not in roots)
-            filenames = sorted(f for f in filenames if f not in HARNESS_FILES)
+            # a root may have been removed and re-created as a FILE by the session (RMD /, then "STOR " with an
+            # empty argument = the root itself): still the root itself, not outside it
+            filenames = sorted(f for f in filenames if f not in HARNESS_FILES and os.path.join(dirpath, f) not in roots)
             snap[dirpath] = ("dir", tuple(dirnames), tuple(filenames))
             for fn in filenames:
                 p = os.path.join(dirpath, fn)
